@@ -150,7 +150,13 @@ Section Roundtrip.
     ENC pn (VSlice t o) =
     (do ek <- elem_key reg t;
      do elems <- match o with None => Ok [] | Some es => mapM (ENC 0) es end;
-     Ok (Some (ISlice pn (fst ek) (snd ek) elems))).
+     Ok (Some (ISlice pn (fst ek) (snd ek) elems false None))).
+  Proof. reflexivity. Qed.
+  Lemma enc_array : forall pn t es,
+    ENC pn (VArray t es) =
+    (do ek <- elem_key reg t;
+     do elems <- mapM (ENC 0) es;
+     Ok (Some (ISlice pn (fst ek) (snd ek) elems true None))).
   Proof. reflexivity. Qed.
   Lemma enc_map : forall pn k t o,
     ENC pn (VMap k t o) =
@@ -161,10 +167,16 @@ Section Roundtrip.
                    | Some kvs => mapM (fun kv => do i <- ENC 0 (snd kv);
                                                  do jk <- enc_key JK kenc (fst kv); Ok (jk, i)) kvs
                    end;
-     Ok (Some (IMap pn (fst kk) (snd kk) (fst vk) (snd vk) entries))).
+     Ok (Some (IMap pn (fst kk) (snd kk) (fst vk) (snd vk) entries None))).
   Proof. reflexivity. Qed.
   Lemma enc_iface0 : forall it o,
     ENC 0 (VIface it o) = match o with None => Ok None | Some w => ENC 0 w end.
+  Proof. reflexivity. Qed.
+  Lemma enc_def : forall pn d w,
+    ENC pn (VDef d w) =
+    (if negb (Nat.eqb pn 0) && match rm_lookup reg (TDef d (ty_of w)) with None => true | Some _ => false end
+     then Err E_UNKNOWN_TYPE
+     else do oi <- ENC pn w; Ok (set_ct J JK (rm_lookup reg (TDef d (ty_of w))) oi)).
   Proof. reflexivity. Qed.
 
   Lemma dec_null : forall pn nn key,
@@ -201,20 +213,29 @@ Section Roundtrip.
             end
      end).
   Proof. reflexivity. Qed.
-  Lemma dec_map : forall pn kpn kname vpn vname entries,
-    DEC (IMap pn kpn kname vpn vname entries) =
+  Lemma dec_map : forall pn kpn kname vpn vname entries ct,
+    DEC (IMap pn kpn kname vpn vname entries ct) =
     (do kt0 <- lookup_ty reg kname;
      do vt0 <- lookup_ty reg vname;
+     do c <- container_ty reg ct (TMap (add_ptr kpn kt0) (add_ptr vpn vt0));
      do kvs <- mapM (fun e => do k <- dec_key JK kdec (add_ptr kpn kt0) (fst e);
                               do v <- HOLE (add_ptr vpn vt0) (snd e);
                               Ok (k, v)) entries;
-     Ok (wrap_ptr pn (VMap (add_ptr kpn kt0) (add_ptr vpn vt0) (Some kvs)))).
+     Ok (wrap_ptr pn (as_ty c (VMap (add_ptr kpn kt0) (add_ptr vpn vt0) (Some kvs))))).
   Proof. reflexivity. Qed.
-  Lemma dec_slice : forall pn epn ename elems,
-    DEC (ISlice pn epn ename elems) =
+  Lemma dec_slice : forall pn epn ename elems ct,
+    DEC (ISlice pn epn ename elems false ct) =
     (do et0 <- lookup_ty reg ename;
+     do c <- container_ty reg ct (TSlice (add_ptr epn et0));
      do es <- mapM (HOLE (add_ptr epn et0)) elems;
-     Ok (wrap_ptr pn (VSlice (add_ptr epn et0) (match es with [] => None | _ => Some es end)))).
+     Ok (wrap_ptr pn (as_ty c (VSlice (add_ptr epn et0) (match es with [] => None | _ => Some es end))))).
+  Proof. reflexivity. Qed.
+  Lemma dec_array : forall pn epn ename elems ct,
+    DEC (ISlice pn epn ename elems true ct) =
+    (do et0 <- lookup_ty reg ename;
+     do c <- container_ty reg ct (TArray (List.length elems) (add_ptr epn et0));
+     do es <- mapM (HOLE (add_ptr epn et0)) elems;
+     Ok (wrap_ptr pn (as_ty c (VArray (add_ptr epn et0) es)))).
   Proof. reflexivity. Qed.
 
   (* ---- registry lookups invert *)
@@ -232,60 +253,91 @@ Section Roundtrip.
   Qed.
 
   (* ---- the invariant *)
+  Definition known (t : ty) : Prop := rm_lookup reg t <> None.
+  (* a value as Marshal / an interface position / a pointer sees it: the dynamic type is all
+     there is.  A value of an unregistered defined container type at pointer depth 0 is
+     excluded (finding F-C12g); behind a pointer the encoder refuses it. *)
   Definition concP (v : val) : Prop :=
-    forall pn oi, ENC pn v = Ok oi ->
+    forall pn oi, (pn = 0%nat -> Forall known (def_ty v)) -> ENC pn v = Ok oi ->
       exists i v', oi = Some i /\ DEC i = Ok (wrap_ptr pn v') /\ v' ≅ v /\ ty_of v' = ty_of v.
   Definition holeP (v : val) : Prop :=
     forall oi, ENC 0 v = Ok oi ->
       exists v', HOLE (ty_of v) oi = Ok v' /\ v' ≅ v /\ ty_of v' = ty_of v.
+  (* containers, rebuilt with whatever type [container_ty] yields *)
+  Definition contP (v : val) : Prop :=
+    forall pn oi ct c, ENC pn v = Ok oi -> container_ty reg ct (ty_of v) = Ok c ->
+      exists i v', oi = Some i /\ set_cti J JK None i = i /\
+                   DEC (set_cti J JK ct i) = Ok (wrap_ptr pn (as_ty c v')) /\ v' ≅ v /\ ty_of v' = ty_of v.
   Definition P (v : val) : Prop :=
-    wt env v = true -> safe v -> (is_iface (ty_of v) = false -> concP v) /\ holeP v.
+    wt env v = true -> safe v -> Forall known (boxed_defs v) ->
+    (is_iface (ty_of v) = false -> concP v) /\ holeP v /\ (is_cont_ty (ty_of v) = true -> contP v).
 
-  Lemma conc_hole : forall v, concP v -> holeP v.
+  Lemma as_ty_cont : forall c v, is_cont_ty c = true -> as_ty c v = v.
+  Proof. intros c v H. destruct c; try discriminate H; reflexivity. Qed.
+
+  Lemma conc_hole : forall v, Forall known (def_ty v) -> concP v -> holeP v.
   Proof.
-    intros v HC oi H. destruct (HC 0%nat oi H) as [i [v' [Hoi [Hd [Hv Ht]]]]]. subst oi.
+    intros v Hk HC oi H. destruct (HC 0%nat oi (fun _ => Hk) H) as [i [v' [Hoi [Hd [Hv Ht]]]]]. subst oi.
     exists v'. split; [|split; assumption].
     unfold hole, dec_opt. simpl in Hd. rewrite Hd. simpl. unfold assign.
     rewrite Ht, ty_eqb_refl. reflexivity.
   Qed.
 
-  Lemma P_conc : forall v, is_iface (ty_of v) = false ->
-    (wt env v = true -> safe v -> concP v) -> P v.
+  Lemma cont_conc : forall v, is_cont_ty (ty_of v) = true -> contP v -> concP v.
   Proof.
-    intros v Hi H Hwt Hs. split.
+    intros v Hc HC pn oi _ H.
+    destruct (HC pn oi None (ty_of v) H eq_refl) as [i [v' [Hoi [Hn [Hd [Hv Ht]]]]]].
+    exists i, v'. rewrite Hn in Hd. rewrite (as_ty_cont _ _ Hc) in Hd. auto.
+  Qed.
+
+  (* values that are neither containers nor of a defined container type *)
+  Lemma P_conc : forall v, is_iface (ty_of v) = false -> is_cont_ty (ty_of v) = false -> def_ty v = [] ->
+    (wt env v = true -> safe v -> Forall known (boxed_defs v) -> concP v) -> P v.
+  Proof.
+    intros v Hi Hc Hd H Hwt Hs Hb. split; [|split].
     - intros _. now apply H.
-    - apply conc_hole. now apply H.
+    - apply conc_hole; [rewrite Hd; constructor | now apply H].
+    - intro Hc'. congruence.
+  Qed.
+  Lemma P_cont : forall v, is_cont_ty (ty_of v) = true -> def_ty v = [] ->
+    (wt env v = true -> safe v -> Forall known (boxed_defs v) -> contP v) -> P v.
+  Proof.
+    intros v Hc Hd H Hwt Hs Hb. assert (HC := H Hwt Hs Hb). split; [|split].
+    - intros _. now apply cont_conc.
+    - apply conc_hole; [rewrite Hd; constructor | now apply cont_conc].
+    - intros _. exact HC.
   Qed.
 
   (* ---- containers *)
   Lemma elems_rt : forall t es,
-    Forall P es -> elems_wt env t es = true -> Forall safe es ->
+    Forall P es -> elems_wt env t es = true -> Forall safe es -> Forall (fun e => Forall known (boxed_defs e)) es ->
     forall elems, mapM (ENC 0) es = Ok elems ->
       exists es', mapM (HOLE t) elems = Ok es' /\ Forall2 veq es' es.
   Proof.
-    intros t es HP Hwt Hs elems H.
+    intros t es HP Hwt Hs Hb elems H.
     eapply mapM_rel; [|exact H].
     clear elems H. induction es as [|e es IH]; constructor.
     - intros oi He. simpl in Hwt. apply andb_true_iff in Hwt. destruct Hwt as [Hwt _].
       apply andb_true_iff in Hwt. destruct Hwt as [Hw Ht]. apply ty_eqb_eq in Ht. subst t.
-      inversion HP; subst. inversion Hs; subst.
-      destruct (H1 Hw H3) as [_ Hh]. destruct (Hh oi He) as [v' [Hd [Hv _]]].
+      inversion HP; subst. inversion Hs; subst. inversion Hb; subst.
+      destruct (H1 Hw H3 H5) as [_ [Hh _]]. destruct (Hh oi He) as [v' [Hd [Hv _]]].
       exists v'. split; assumption.
     - simpl in Hwt. apply andb_true_iff in Hwt. destruct Hwt as [_ Hwt].
-      inversion HP; subst. inversion Hs; subst. now apply IH.
+      inversion HP; subst. inversion Hs; subst. inversion Hb; subst. now apply IH.
   Qed.
 
   Lemma entries_rt : forall k t kvs,
     Forall (fun kv => P (fst kv) /\ P (snd kv)) kvs ->
     key_ty k = true -> entries_wt env k t kvs = true ->
     Forall (fun kv => safe (fst kv) /\ safe (snd kv)) kvs ->
+    Forall (fun kv => Forall known (boxed_defs (snd kv))) kvs ->
     forall entries,
       mapM (fun kv => do i <- ENC 0 (snd kv); do jk <- enc_key JK kenc (fst kv); Ok (jk, i)) kvs = Ok entries ->
       exists kvs',
         mapM (fun e => do k' <- dec_key JK kdec k (fst e); do v <- HOLE t (snd e); Ok (k', v)) entries = Ok kvs'
         /\ Forall2 (fun a b => veq (fst a) (fst b) /\ veq (snd a) (snd b)) kvs' kvs.
   Proof.
-    intros k t kvs HP Hk Hwt Hs entries H.
+    intros k t kvs HP Hk Hwt Hs Hbd entries H.
     eapply mapM_rel; [|exact H].
     clear entries H. induction kvs as [|[a b] kvs IH]; constructor.
     - intros e He. simpl in He.
@@ -296,9 +348,10 @@ Section Roundtrip.
       rename H into Hrest. rename H0 into Htb. rename H1 into Hwb. rename H2 into Hta. rename Hwt into Hwa.
       apply ty_eqb_eq in Hta. apply ty_eqb_eq in Htb.
       inversion HP as [|? ? [HPa HPb] HP']. inversion Hs as [|? ? [Hsa Hsb] Hs'].
-      simpl in HPa, HPb, Hsa, Hsb.
+      inversion Hbd as [|? ? Hbb Hbd'].
+      simpl in HPa, HPb, Hsa, Hsb, Hbb.
       (* the value *)
-      destruct (HPb Hwb Hsb) as [_ Hh]. destruct (Hh _ Hi) as [v' [Hd [Hv _]]].
+      destruct (HPb Hwb Hsb Hbb) as [_ [Hh _]]. destruct (Hh _ Hi) as [v' [Hd [Hv _]]].
       rewrite Htb in Hd.
       (* the key *)
       assert (Hkk : is_basic_ty (ty_of a) = true) by (rewrite Hta; exact Hk).
@@ -311,7 +364,7 @@ Section Roundtrip.
         rewrite <- Hta. simpl. rewrite (krt _ _ _ Hl Hj Hjk). simpl. rewrite Hd. simpl.
         eexists. split; [reflexivity|]. simpl. split; [constructor | assumption].
     - simpl in Hwt. repeat (apply andb_true_iff in Hwt; destruct Hwt as [Hwt ?]).
-      inversion HP; subst. inversion Hs; subst. now apply IH.
+      inversion HP; subst. inversion Hs; subst. inversion Hbd; subst. now apply IH.
   Qed.
 
   (* ---- structs: every field is encoded, decoded under its name and put back *)
@@ -323,21 +376,22 @@ Section Roundtrip.
     Forall (fun fv => P (snd fv)) fs ->
     Forall (fun fv => wt env (snd fv) = true) fs ->
     Forall (fun fv => safe (snd fv)) fs ->
+    Forall (fun fv => Forall known (boxed_defs (snd fv))) fs ->
     forall fields,
       mapM (fun fv => do i <- ENC 0 (snd fv); Ok (fst fv, i)) fs = Ok fields ->
       exists decoded,
         mapM (fun fi => do o <- dec_opt J JK DEC (snd fi); Ok (fst fi, o)) fields = Ok decoded
         /\ Forall2 (fun fo fv => fieldQ fv fo) decoded fs.
   Proof.
-    intros fs HP Hwt Hs fields H.
+    intros fs HP Hwt Hs Hb fields H.
     eapply mapM_rel; [|exact H].
     clear fields H. induction fs as [|[f w] fs IH]; constructor.
     - intros fi He. simpl in He. bind_inv He. inversion He; subst. clear He. simpl.
-      inversion HP; subst. inversion Hwt; subst. inversion Hs; subst. simpl in *.
-      destruct (H1 H3 H5) as [_ Hh]. destruct (Hh _ Ha) as [v' [Hd [Hv Ht]]].
+      inversion HP; subst. inversion Hwt; subst. inversion Hs; subst. inversion Hb; subst. simpl in *.
+      destruct (H1 H3 H5 H7) as [_ [Hh _]]. destruct (Hh _ Ha) as [v' [Hd [Hv Ht]]].
       unfold hole in Hd. bind_inv Hd. rewrite Ha0. simpl.
       eexists. split; [reflexivity|]. unfold fieldQ. simpl. split; [reflexivity|]. eauto.
-    - inversion HP; subst. inversion Hwt; subst. inversion Hs; subst. now apply IH.
+    - inversion HP; subst. inversion Hwt; subst. inversion Hs; subst. inversion Hb; subst. now apply IH.
   Qed.
 
   Lemma fields_wt_facts : forall ds fs, fields_wt env ds fs = true ->
@@ -378,30 +432,48 @@ Section Roundtrip.
       + constructor; [|assumption]. simpl. split; assumption.
   Qed.
 
+  Lemma Forall_flat_map_inv {A B} (Q : B -> Prop) (f : A -> list B) : forall l,
+    Forall Q (flat_map f l) -> Forall (fun a => Forall Q (f a)) l.
+  Proof. intros l H. apply Forall_flat_map in H. exact H. Qed.
+
+  Lemma container_ty_inv : forall ct t c, container_ty reg ct t = Ok c ->
+    is_cont_ty t = true -> c = t \/ exists d, c = TDef d t.
+  Proof.
+    intros ct t c H Hc. destruct ct as [k|]; simpl in H; [|inversion H; now left].
+    bind_inv H. unfold assignable_to in H.
+    destruct (ty_eqb t a) eqn:E.
+    - simpl in H. inversion H; subst. apply ty_eqb_eq in E. now left.
+    - simpl in H. destruct a; try discriminate H.
+      destruct (ty_eqb a t) eqn:E2; [|discriminate H]. inversion H; subst.
+      apply ty_eqb_eq in E2. subst. right. eauto.
+  Qed.
+
   (* ---- main induction *)
   Lemma roundtrip_all : forall v, P v.
   Proof.
     induction v using val_ind'.
     - (* VBase *)
-      apply P_conc; [reflexivity|]. intros Hwt Hs pn oi H. simpl in Hwt.
+      apply P_conc; try reflexivity. intros Hwt Hs _ pn oi _ H. simpl in Hwt.
       rewrite enc_base in H. bind_inv H. bind_inv H. inversion H; subst. clear H.
       assert (Hj : jsafe l = true) by (inversion Hs; assumption).
       exists (IBasic pn a a0), (VBase b l). split; [reflexivity|]. split; [|split; [constructor|reflexivity]].
       rewrite dec_basic, (lookup_name_inv _ _ Ha). simpl. rewrite (jrt _ _ _ Hwt Hj Ha0). reflexivity.
     - (* VNamed *)
-      apply P_conc; [reflexivity|]. intros Hwt Hs pn oi H. simpl in Hwt.
+      apply P_conc; try reflexivity. intros Hwt Hs _ pn oi _ H. simpl in Hwt.
       rewrite enc_named in H. bind_inv H. bind_inv H. inversion H; subst. clear H.
       assert (Hj : jsafe l = true) by (inversion Hs; assumption).
       exists (IBasic pn a a0), (VNamed n b l). split; [reflexivity|]. split; [|split; [constructor|reflexivity]].
       rewrite dec_basic, (lookup_name_inv _ _ Ha). simpl. rewrite (jrt _ _ _ Hwt Hj Ha0). reflexivity.
     - (* VStruct *)
-      apply P_conc; [reflexivity|]. intros Hwt Hs pn oi H0.
+      apply P_conc; try reflexivity. intros Hwt Hs Hbd pn oi _ H0.
       rewrite wt_struct in Hwt. destruct (struct_fields env n) as [ds|] eqn:Eds; [|discriminate Hwt].
       destruct (fields_wt_facts _ _ Hwt) as [Hnames [Hwts Hdf]].
       rewrite enc_struct in H0. bind_inv H0. bind_inv H0. inversion H0; subst. clear H0.
       assert (Hss : Forall (fun fv => safe (snd fv)) fs).
       { unfold safe in Hs. simpl in Hs. apply Forall_flat_map in Hs. exact Hs. }
-      destruct (fields_dec fs H Hwts Hss _ Ha0) as [decoded [Hdec HQ]].
+      assert (Hbs : Forall (fun fv => Forall known (boxed_defs (snd fv))) fs).
+      { simpl in Hbd. apply Forall_flat_map in Hbd. exact Hbd. }
+      destruct (fields_dec fs H Hwts Hss Hbs _ Ha0) as [decoded [Hdec HQ]].
       assert (Hdn : map fst decoded = map fst ds).
       { rewrite <- Hnames. clear -HQ. induction HQ as [|fo fv ? ? [Hn _] _ IH]; simpl; [reflexivity|].
         now rewrite Hn, IH. }
@@ -415,7 +487,7 @@ Section Roundtrip.
       { apply forallb_forall. intros fo Hin. apply has_name_in. rewrite <- Hdn. now apply in_map. }
       rewrite Hall, Hb. reflexivity.
     - (* VNilPtr *)
-      apply P_conc; [reflexivity|]. intros Hwt Hs pn oi H.
+      apply P_conc; try reflexivity. intros Hwt Hs _ pn oi _ H.
       rewrite enc_nil in H. bind_inv H. inversion H; subst. clear H.
       eexists _, (VNilPtr t). split; [reflexivity|]. split; [|split; [constructor|reflexivity]].
       rewrite dec_null, (lookup_name_inv _ _ Ha), bind_Ok_l.
@@ -424,42 +496,49 @@ Section Roundtrip.
       replace (S (pn + fst (strip_ptr t)) - pn)%nat with (S (fst (strip_ptr t))) by lia.
       simpl. rewrite strip_ptr_add. reflexivity.
     - (* VPtr *)
-      apply P_conc; [reflexivity|]. intros Hwt Hs pn oi H. simpl in Hwt.
+      apply P_conc; try reflexivity. intros Hwt Hs Hbd pn oi _ H. simpl in Hwt.
       apply andb_true_iff in Hwt. destruct Hwt as [Hni Hwt]. apply negb_true_iff in Hni.
-      rewrite enc_ptr in H.
-      destruct (IHv Hwt Hs) as [HC _]. destruct (HC Hni _ _ H) as [i [v' [Hoi [Hd [Hv Ht]]]]].
+      rewrite enc_ptr in H. simpl in Hbd.
+      destruct (IHv Hwt Hs Hbd) as [HC _].
+      destruct (HC Hni (S pn) _ ltac:(discriminate) H) as [i [v' [Hoi [Hd [Hv Ht]]]]].
       exists i, (VPtr v'). split; [assumption|]. split; [|split].
       + rewrite Hd. simpl. now rewrite wrap_ptr_shift.
       + now constructor.
       + simpl. now rewrite Ht.
     - (* VSlice nil *)
-      apply P_conc; [reflexivity|]. intros Hwt Hs pn oi H.
+      apply P_cont; try reflexivity. intros Hwt Hs _ pn oi ct c H Hc.
       rewrite enc_slice in H. bind_inv H. simpl in H. inversion H; subst. clear H.
       destruct (elem_key_inv _ _ Ha) as [t0 [Hl Ht]].
-      eexists _, (VSlice t None). split; [reflexivity|]. split; [|split; [apply veq_refl|reflexivity]].
-      rewrite dec_slice, Hl. simpl. rewrite Ht. reflexivity.
+      eexists _, (VSlice t None). split; [reflexivity|]. split; [reflexivity|].
+      split; [|split; [apply veq_refl|reflexivity]].
+      simpl set_cti. rewrite dec_slice, Hl. simpl. rewrite Ht. simpl in Hc. rewrite Hc. reflexivity.
     - (* VSlice *)
-      apply P_conc; [reflexivity|]. intros Hwt Hs pn oi H0.
+      apply P_cont; try reflexivity. intros Hwt Hs Hbd pn oi ct c H0 Hc.
       rewrite wt_slice in Hwt. apply andb_true_iff in Hwt. destruct Hwt as [_ Hwt].
       rewrite enc_slice in H0. bind_inv H0. bind_inv H0. inversion H0; subst. clear H0.
       destruct (elem_key_inv _ _ Ha) as [t0 [Hl Ht]].
       assert (Hss : Forall safe es).
       { unfold safe in Hs. simpl in Hs. apply Forall_flat_map in Hs. exact Hs. }
-      destruct (elems_rt t es H Hwt Hss _ Ha0) as [es' [Hd HF]].
+      assert (Hbs : Forall (fun e => Forall known (boxed_defs e)) es).
+      { simpl in Hbd. apply Forall_flat_map in Hbd. exact Hbd. }
+      destruct (elems_rt t es H Hwt Hss Hbs _ Ha0) as [es' [Hd HF]].
       eexists _, (VSlice t (match es' with [] => None | _ => Some es' end)).
-      split; [reflexivity|]. split; [|split; [|reflexivity]].
-      + rewrite dec_slice, Hl. simpl. rewrite Ht, Hd. reflexivity.
+      split; [reflexivity|]. split; [reflexivity|]. split; [|split; [|reflexivity]].
+      + simpl set_cti. rewrite dec_slice, Hl. simpl. rewrite Ht. simpl in Hc. rewrite Hc. simpl.
+        rewrite Hd. reflexivity.
       + constructor. destruct es'; simpl; exact HF.
     - (* VMap nil *)
-      apply P_conc; [reflexivity|]. intros Hwt Hs pn oi H.
+      apply P_cont; try reflexivity. intros Hwt Hs _ pn oi ct c H Hc.
       rewrite enc_map in H. bind_inv H. bind_inv H. simpl in H. inversion H; subst. clear H.
       destruct (elem_key_inv _ _ Ha) as [k0 [Hlk Hk]].
       destruct (elem_key_inv _ _ Ha0) as [t0 [Hlt Ht]].
-      eexists _, (VMap k t (Some [])). split; [reflexivity|]. split; [|split; [|reflexivity]].
-      + rewrite dec_map, Hlk. simpl. rewrite Hlt. simpl. rewrite Hk, Ht. reflexivity.
+      eexists _, (VMap k t (Some [])). split; [reflexivity|]. split; [reflexivity|].
+      split; [|split; [|reflexivity]].
+      + simpl set_cti. rewrite dec_map, Hlk. simpl. rewrite Hlt. simpl. rewrite Hk, Ht.
+        simpl in Hc. rewrite Hc. reflexivity.
       + constructor. simpl. constructor.
     - (* VMap *)
-      apply P_conc; [reflexivity|]. intros Hwt Hs pn oi H0.
+      apply P_cont; try reflexivity. intros Hwt Hs Hbd pn oi ct c H0 Hc.
       rewrite wt_map in Hwt. apply andb_true_iff in Hwt. destruct Hwt as [Hwt Hew].
       apply andb_true_iff in Hwt. destruct Hwt as [Hkt _].
       apply andb_true_iff in Hew. destruct Hew as [Hew _].
@@ -469,48 +548,121 @@ Section Roundtrip.
       assert (Hss : Forall (fun kv => safe (fst kv) /\ safe (snd kv)) kvs).
       { unfold safe in Hs. simpl in Hs. apply Forall_flat_map in Hs.
         eapply Forall_impl; [|exact Hs]. intros kv Hkv. apply Forall_app in Hkv. exact Hkv. }
-      destruct (entries_rt k t kvs H Hkt Hew Hss _ Ha1) as [kvs' [Hd HF]].
-      eexists _, (VMap k t (Some kvs')). split; [reflexivity|]. split; [|split; [|reflexivity]].
-      + rewrite dec_map, Hlk. simpl. rewrite Hlt. simpl. rewrite Hk, Ht, Hd. reflexivity.
+      assert (Hbs : Forall (fun kv => Forall known (boxed_defs (snd kv))) kvs).
+      { simpl in Hbd. apply Forall_flat_map in Hbd.
+        eapply Forall_impl; [|exact Hbd]. intros kv Hkv. apply Forall_app in Hkv. apply Hkv. }
+      destruct (entries_rt k t kvs H Hkt Hew Hss Hbs _ Ha1) as [kvs' [Hd HF]].
+      eexists _, (VMap k t (Some kvs')). split; [reflexivity|]. split; [reflexivity|].
+      split; [|split; [|reflexivity]].
+      + simpl set_cti. rewrite dec_map, Hlk. simpl. rewrite Hlt. simpl. rewrite Hk, Ht.
+        simpl in Hc. rewrite Hc. simpl. rewrite Hd. reflexivity.
       + constructor. simpl. exact HF.
     - (* VIface nil *)
-      intros Hwt Hs. simpl in Hwt. apply andb_true_iff in Hwt. destruct Hwt as [Hi _].
-      split; [simpl; congruence|].
+      intros Hwt Hs _. simpl in Hwt. apply andb_true_iff in Hwt. destruct Hwt as [Hi _].
+      split; [simpl; congruence|]. split; [|destruct it; discriminate].
       intros oi H. rewrite enc_iface0 in H. inversion H; subst. simpl.
       exists (VIface it None). split; [|split; [constructor|reflexivity]].
       unfold hole, dec_opt. rewrite bind_Ok_l. unfold place. now apply zero_iface.
     - (* VIface *)
-      intros Hwt Hs. simpl in Hwt. apply andb_true_iff in Hwt. destruct Hwt as [Hi Hwt].
+      intros Hwt Hs Hbd. simpl in Hwt. apply andb_true_iff in Hwt. destruct Hwt as [Hi Hwt].
       apply andb_true_iff in Hwt. destruct Hwt as [Hni Hwt]. apply negb_true_iff in Hni.
-      split; [simpl; congruence|].
+      split; [simpl; congruence|]. split; [|destruct it; discriminate].
       intros oi H. rewrite enc_iface0 in H.
-      destruct (IHv Hwt Hs) as [HC _]. destruct (HC Hni _ _ H) as [i [v' [Hoi [Hd [Hv Ht]]]]]. subst oi.
+      simpl in Hbd. apply Forall_app in Hbd. destruct Hbd as [Hdt Hbd].
+      destruct (IHv Hwt Hs Hbd) as [HC _].
+      destruct (HC Hni _ _ (fun _ => Hdt) H) as [i [v' [Hoi [Hd [Hv Ht]]]]]. subst oi.
       exists (VIface it (Some v')). split; [|split; [now constructor|reflexivity]].
       unfold hole, dec_opt. simpl in Hd. rewrite Hd. simpl. unfold assign.
       rewrite Ht. rewrite (iface_not_eqb _ _ Hni Hi). rewrite Hi, Hni. reflexivity.
+    - (* VArray *)
+      apply P_cont; try reflexivity. intros Hwt Hs Hbd pn oi ct c H0 Hc.
+      rewrite wt_array in Hwt. apply andb_true_iff in Hwt. destruct Hwt as [_ Hwt].
+      rewrite enc_array in H0. bind_inv H0. bind_inv H0. inversion H0; subst. clear H0.
+      destruct (elem_key_inv _ _ Ha) as [t0 [Hl Ht]].
+      assert (Hss : Forall safe es).
+      { unfold safe in Hs. simpl in Hs. apply Forall_flat_map in Hs. exact Hs. }
+      assert (Hbs : Forall (fun e => Forall known (boxed_defs e)) es).
+      { simpl in Hbd. apply Forall_flat_map in Hbd. exact Hbd. }
+      destruct (elems_rt t es H Hwt Hss Hbs _ Ha0) as [es' [Hd HF]].
+      assert (Hlen1 : List.length a0 = List.length es).
+      { clear -Ha0. revert a0 Ha0. induction es as [|e es IH]; intros a0 Ha0.
+        - rewrite mapM_nil in Ha0. now inversion Ha0.
+        - rewrite mapM_cons in Ha0. bind_inv Ha0. bind_inv Ha0. inversion Ha0; subst. simpl. f_equal. now apply IH. }
+      assert (Hlen2 : List.length es' = List.length es) by (eapply Forall2_len; eauto).
+      eexists _, (VArray t es').
+      split; [reflexivity|]. split; [reflexivity|]. split; [|split].
+      + simpl set_cti. rewrite dec_array, Hl. simpl. rewrite Ht, Hlen1. simpl in Hc. rewrite Hc. simpl.
+        rewrite Hd. reflexivity.
+      + constructor. exact HF.
+      + simpl. now rewrite Hlen2.
+    - (* VDef *)
+      intros Hwt Hs Hbd. simpl in Hwt. apply andb_true_iff in Hwt. destruct Hwt as [Hct Hwt].
+      simpl in Hbd. unfold safe in Hs. simpl in Hs.
+      destruct (IHv Hwt Hs Hbd) as [_ [_ HK]]. specialize (HK Hct).
+      assert (Hne : ty_eqb (ty_of v) (TDef d (ty_of v)) = false).
+      { destruct (ty_of v); try discriminate Hct; reflexivity. }
+      (* what the encoder does with a registered / an unregistered defined type at depth 0 *)
+      assert (Hreg : forall k pn oi, rm_lookup reg (TDef d (ty_of v)) = Some k -> ENC pn (VDef d v) = Ok oi ->
+                exists i v', oi = Some i /\ DEC i = Ok (wrap_ptr pn (VDef d v')) /\ v' ≅ v /\ ty_of v' = ty_of v).
+      { intros k pn oi Hk H. rewrite enc_def, Hk, andb_false_r in H. bind_inv H. inversion H; subst. clear H.
+        assert (Hcty : container_ty reg (Some k) (ty_of v) = Ok (TDef d (ty_of v))).
+        { simpl. unfold lookup_ty. rewrite (reg_consistent reg reg_names _ _ Hk). simpl.
+          unfold assignable_to. rewrite Hne, ty_eqb_refl. reflexivity. }
+        destruct (HK pn a (Some k) _ Ha Hcty) as [i [v' [Hoi [_ [Hd [Hv Ht]]]]]]. subst a.
+        exists (set_cti J JK (Some k) i), v'. split; [reflexivity|]. split; [exact Hd|]. split; assumption. }
+      split; [|split].
+      + (* concP *)
+        intros _ pn oi Hk H. simpl in Hk.
+        destruct (rm_lookup reg (TDef d (ty_of v))) as [k|] eqn:Ek.
+        * destruct (Hreg k pn oi eq_refl H) as [i [v' [Hoi [Hd [Hv Ht]]]]].
+          exists i, (VDef d v'). split; [exact Hoi|]. split; [exact Hd|]. split; [now constructor|].
+          simpl. now rewrite Ht.
+        * destruct pn as [|pn].
+          -- exfalso. specialize (Hk eq_refl). inversion Hk as [|? ? Hk1 _]; subst. now apply Hk1.
+          -- rewrite enc_def, Ek in H. simpl in H. discriminate H.
+      + (* holeP *)
+        intros oi H.
+        destruct (rm_lookup reg (TDef d (ty_of v))) as [k|] eqn:Ek.
+        * destruct (Hreg k 0%nat oi eq_refl H) as [i [v' [Hoi [Hd [Hv Ht]]]]]. subst oi.
+          exists (VDef d v'). split; [|split; [now constructor | simpl; now rewrite Ht]].
+          unfold hole, dec_opt. simpl in Hd. rewrite Hd. simpl. unfold assign. simpl.
+          rewrite Ht, N.eqb_refl, ty_eqb_refl. reflexivity.
+        * rewrite enc_def, Ek in H. simpl in H. bind_inv H. inversion H; subst. clear H.
+          destruct (HK 0%nat a None (ty_of v) Ha eq_refl) as [i [v' [Hoi [Hn [Hd [Hv Ht]]]]]]. subst a.
+          rewrite Hn in Hd. rewrite (as_ty_cont _ _ Hct) in Hd. simpl in Hd.
+          exists (VDef d v'). split; [|split; [now constructor | simpl; now rewrite Ht]].
+          unfold hole, dec_opt.
+          assert (Es : set_ct J JK None (Some i) = Some i) by (simpl; now rewrite Hn).
+          rewrite Es, Hd. simpl. unfold assign. simpl. rewrite Ht, Hne. simpl.
+          rewrite ty_eqb_refl. reflexivity.
+      + intro Hc. discriminate Hc.
   Qed.
 
   (* ---- the statements used by Props/C12.v *)
+  Definition defs_ok (v : val) : Prop := Forall known (def_ty v ++ boxed_defs v).
+
   Lemma enc_dec_roundtrip_lemma : forall v oi,
-    wt env v = true -> is_iface (ty_of v) = false -> safe v ->
+    wt env v = true -> is_iface (ty_of v) = false -> safe v -> defs_ok v ->
     marshal J JK jenc kenc fixed reg v = Ok oi ->
     exists v', unmarshal J JK jdec kdec fixed reg env oi = Ok v' /\ v' ≅ v /\ dyn_ty v' = dyn_ty v.
   Proof.
-    intros v oi Hwt Hi Hs H. unfold marshal in H.
-    destruct (roundtrip_all v Hwt Hs) as [HC _].
-    destruct (HC Hi _ _ H) as [i [v' [Hoi [Hd [Hv Ht]]]]]. subst oi.
+    intros v oi Hwt Hi Hs Hdo H. unfold marshal in H.
+    apply Forall_app in Hdo. destruct Hdo as [Hdt Hbd].
+    destruct (roundtrip_all v Hwt Hs Hbd) as [HC _].
+    destruct (HC Hi _ _ (fun _ => Hdt) H) as [i [v' [Hoi [Hd [Hv Ht]]]]]. subst oi.
     exists v'. split; [exact Hd|]. split; [exact Hv|].
     clear HC Hd H Hs.
     destruct Hv; simpl in *; try congruence; rewrite Hi in Hwt; discriminate Hwt.
   Qed.
 
-  (* a value in an interface-typed position (field, element, map value): what the decoder
-     puts into the position is equivalent and has the same static and dynamic type *)
+  (* a value in a typed position (field, element, map value; interface-typed or not): what
+     the decoder puts into the position is equivalent and has the position's static type.
+     Here an unregistered defined container type is fine: the position restores the name. *)
   Lemma position_roundtrip_lemma : forall v oi,
-    wt env v = true -> safe v ->
+    wt env v = true -> safe v -> Forall known (boxed_defs v) ->
     enc_at J JK jenc kenc fixed reg 0 v = Ok oi ->
     exists v', HOLE (ty_of v) oi = Ok v' /\ v' ≅ v /\ ty_of v' = ty_of v.
   Proof.
-    intros v oi Hwt Hs H. destruct (roundtrip_all v Hwt Hs) as [_ Hh]. now apply Hh.
+    intros v oi Hwt Hs Hb H. destruct (roundtrip_all v Hwt Hs Hb) as [_ [Hh _]]. now apply Hh.
   Qed.
 End Roundtrip.
